@@ -29,6 +29,18 @@ class OpsMixin(object):
     import time as _t, os as _os
     t0 = _t.time()
     r = s.check()
+    if r == z3.unknown:
+      # quantified hypotheses make the quick check time out: infeasibility shown from the quantifier-free part alone is
+      # still infeasibility
+      s = z3.Solver()
+      s.set('timeout', 400)
+      for c in st.pc:
+        if not z3.is_quantifier(c) and not (z3.is_and(c) and c.num_args() == 1 and z3.is_quantifier(c.arg(0))):
+          s.add(c)
+      if cond is not None:
+        s.add(cond)
+      if s.check() == z3.unsat:
+        r = z3.unsat
     if _os.environ.get('PYVC_DEBUG') and _t.time() - t0 > 0.3:
       print('slow feasibility %.2fs -> %s  pc=%d cond=%s' % (_t.time() - t0, r, len(st.pc), str(cond)[:120]))
     return r != z3.unsat      # unknown counts as feasible (over-approximation is sound)
@@ -78,7 +90,7 @@ class OpsMixin(object):
       alive = [known]
     elif allowed is not None:
       alive = [a for a in allowed if tags is None or a in tags]
-      if len(alive) > 1 and not self.spec_mode:
+      if len(alive) > 1:
         alive = [a for a in alive if self.feasible(st, self.recog(a, t))]
     else:
       alive = []
